@@ -136,8 +136,10 @@ func (i Imports) typAndMod(t string) (string, string) {
 	var mod string
 	typ := t
 
-	// Split modifiers and type information
-	index := strings.LastIndexAny(typ, "[]*")
+	// Split modifiers and type information. Modifiers stand in front of the type name:
+	// brackets and stars inside the arguments of a call (a validator or a plan modifier
+	// with a pattern argument) are not modifiers
+	index := strings.LastIndexAny(i.typBeforeBracket(typ), "[]*")
 	if index > -1 {
 		typ = t[index+1:]
 		mod = t[0 : index+1]
